@@ -143,6 +143,12 @@ func RequestPlacement(sp *spec.Spec, sv *spec.Service, m *spec.Method, ex *rt.Ex
 	if prt == nil || prt.Kind != spec.Object {
 		return
 	}
+	if h.Multipart {
+		// the framing is judged here; the JSON of the codec's part then stands for the body (multipart.go)
+		if w = multipartWire(w, v); w == nil {
+			return
+		}
+	}
 	sent, _ := ex.Case.Sent.(map[string]any)
 	u, err := url.Parse(w.URL)
 	if err != nil {
